@@ -35,8 +35,8 @@ fn pcmp(x: &Arr, y: &Arr) -> Option<Ordering> {
 }
 
 pub fn standin_vclock_iter(r: &mut Report) {
-    r.target = "VClock::iter, VClock::into_iter / IntoIter::next: yield exactly the dots of the clock, each actor once".into();
-    r.bound = "all clocks over actors {0,1,2} with counters 0..=3 (64 clocks)".into();
+    r.target = "VClock::iter, VClock::into_iter / IntoIter::next: yield exactly the dots of the clock, each actor once; FromIterator<Dot> for VClock (not under contract): pointwise maximum, no zero stored".into();
+    r.bound = "all clocks over actors {0,1,2} with counters 0..=3 (64 clocks); all sequences of 3 dots over 3 actors x counters 0..=2 (729)".into();
     for a in all(3) {
         let c = mk(&a);
         let mut seen = [0u64; ACTORS];
@@ -50,6 +50,16 @@ pub fn standin_vclock_iter(r: &mut Report) {
         for d in c.clone().into_iter() { if seen[d.actor as usize] != 0 { dup = true; } seen[d.actor as usize] = d.counter; n += 1; }
         r.case("into_iter.exact", !dup && seen == a && n == a.iter().filter(|x| **x > 0).count(), &|| format!("{:?}", a), &|| format!("yielded {:?}", seen));
     }
+    // FromIterator<Dot> (generic over IntoIterator, not under contract): the pointwise maximum of the dots, zero counters not stored
+    let dots: Vec<(u8, u64)> = (0..ACTORS as u8).flat_map(|a| (0..=2u64).map(move |n| (a, n))).collect();
+    for i in 0..dots.len() { for j in 0..dots.len() { for k in 0..dots.len() {
+        let seq = [dots[i], dots[j], dots[k]];
+        let c: VClock<u8> = seq.iter().map(|(a, n)| Dot::new(*a, *n)).collect();
+        let mut want = [0u64; ACTORS];
+        for (a, n) in seq.iter() { want[*a as usize] = want[*a as usize].max(*n); }
+        let stored: Vec<u64> = c.dots.values().copied().collect();
+        r.case("from_iter.pointwise_max", arr(&c) == Some(want) && stored.iter().all(|n| *n > 0), &|| format!("{:?}", seq), &|| format!("got {:?}", c));
+    } } }
 }
 
 pub fn search(r: &mut Report, tier: &str, _seed: u64) {
